@@ -37,7 +37,7 @@ type Sub struct {
 // step's observable effect (at the upstream or at a handler), never for wall-clock time, except
 // for the one-sided settle interval when a subscriber is expected to join a dial in progress.
 type Step struct {
-	Op  string `json:"op"`            // sub | cancel | send | ack | drop | idle
+	Op  string `json:"op"`            // sub | cancel | send | ack | drop | idle | silence | ticks (Key = number of ping intervals to let pass)
 	Sub int    `json:"sub,omitempty"` // sub, cancel, send
 	Key int    `json:"key,omitempty"` // ack, drop: tuple index
 }
@@ -55,6 +55,27 @@ type Case struct {
 	// as soon as it sees the subscribe; DropAfter[k] >= 0 drops a connection of tuple k after that many
 	// messages were written on it.
 	DropAfter []int `json:"drop_after,omitempty"`
+	Ping      *Ping `json:"ping,omitempty"`
+}
+
+// Ping configures client-initiated heartbeats for the ping part: the upstream stops answering
+// pings on the connections of the Silent tuples at the "silence" step.
+type Ping struct {
+	IntervalMs int   `json:"interval_ms"`
+	TimeoutMs  int   `json:"timeout_ms"`
+	Silent     []int `json:"silent"` // tuple indices whose connections stop answering pings
+}
+
+func (c Case) silentTuple(k int) bool {
+	if c.Ping == nil {
+		return false
+	}
+	for _, s := range c.Ping.Silent {
+		if s == k {
+			return true
+		}
+	}
+	return false
 }
 
 func (c Case) stepped() bool { return !c.Burst }
